@@ -1,6 +1,7 @@
 package checks
 
 import (
+	"context"
 	"fmt"
 	"sort"
 	"strings"
@@ -39,6 +40,12 @@ func treeView(w *world.World, t *mast.Mast) (world.Contents, uint64, uint8) {
 
 // runFOp executes one operation by name.
 func runFOp(w *world.World, t *mast.Mast, op fOp, aux *mast.Mast) (world.Res, string) {
+	return runFOpCtx(ctx, w, t, op, aux)
+}
+
+// runFOpCtx is runFOp under the caller's context (the package-level one, or one that the environment cancels
+// in the middle of the operation).
+func runFOpCtx(ctx context.Context, w *world.World, t *mast.Mast, op fOp, aux *mast.Mast) (world.Res, string) {
 	cfg := w.Cfg
 	var obs string
 	res := guardRes(func() error {
@@ -338,6 +345,11 @@ func c12StateMode(run *report.Run, cfg *world.Config, hist []world.Op, acc *pair
 				faults = append(faults, fault{"marshal", i, -1})
 			}
 		}
+		// the caller's context is cancelled while the i-th Load is under way (the load itself succeeds: the
+		// stores of the library do not look at the context either)
+		for i := 0; i < nLoad; i++ {
+			faults = append(faults, fault{"cancel", i, -1})
+		}
 		if pairs {
 			for i := 0; i < nLoad; i++ {
 				for j := i + 1; j < nLoad+2; j++ {
@@ -354,6 +366,7 @@ func c12StateMode(run *report.Run, cfg *world.Config, hist []world.Op, acc *pair
 			if f.j >= 0 {
 				set[f.j] = true
 			}
+			opCtx := ctx
 			switch f.kind {
 			case "load":
 				w.Store.FailLoadAt = set
@@ -361,8 +374,21 @@ func c12StateMode(run *report.Run, cfg *world.Config, hist []world.Op, acc *pair
 				w.Cmp.FailAt = set
 			case "marshal":
 				w.Msh.FailAt = set
+			case "cancel":
+				cctx, cancel := context.WithCancel(ctx)
+				defer cancel()
+				opCtx = cctx
+				var nl int32
+				at := int32(f.i)
+				w.Store.Gate = func(kind, name string) error {
+					if kind == "load" && atomic.AddInt32(&nl, 1) == at+1 {
+						cancel()
+					}
+					return nil
+				}
 			}
-			res, obsF := runFOp(w, t, op, aux)
+			res, obsF := runFOpCtx(opCtx, w, t, op, aux)
+			w.Store.Gate = nil
 			atomic.AddInt64(&st.evals, 1)
 			w.Store.ClearFaults()
 			w.Cmp.Reset()
@@ -381,8 +407,12 @@ func c12StateMode(run *report.Run, cfg *world.Config, hist []world.Op, acc *pair
 					atomic.AddInt64(&st.swallowedDiffer, 1)
 				}
 				if differs && sm != nil {
-					acc.add(cfg, sm.check, []explore.Finding{{Sig: fmt.Sprintf("%s|%s|reported-success-under-a-failing-%s-but-the-result-differs", sm.check, op.name, f.kind),
-						What:   fmt.Sprintf("%s returned nil although one of its %s calls failed, and its answer or the state it leaves is not that of the fault-free execution", op.name, f.kind),
+					sigPart, whatPart := "under-a-failing-"+f.kind, fmt.Sprintf("although one of its %s calls failed", f.kind)
+					if f.kind == "cancel" {
+						sigPart, whatPart = "after-its-context-was-cancelled-during-a-load", "although its context was cancelled while one of its Load calls was under way"
+					}
+					acc.add(cfg, sm.check, []explore.Finding{{Sig: fmt.Sprintf("%s|%s|reported-success-%s-but-the-result-differs", sm.check, op.name, sigPart),
+						What:   fmt.Sprintf("%s returned nil %s, and its answer or the state it leaves is not that of the fault-free execution", op.name, whatPart),
 						Detail: fmt.Sprintf("fault-free: %q -> %v size=%d height=%d; with %s #%d failing: %q -> %v size=%d height=%d", obs0, postC, postSize, postH, f.kind, f.i, obsF, c1, s1, h1)}},
 						append(cfg.DescribeHist(hist), fmt.Sprintf("then %s(%v) with %s #%d failing", op.name, cfg.Key(op.k), f.kind, f.i)))
 				}
